@@ -27,7 +27,7 @@ LEVEL_TEXT = (
 LEVEL_NOTE = "Trusts py_gql.lang.parse to build the AST handed to the rule (covered by C01/C02) and the reference measure in this file (self-tested on the docstring example)."
 DESIGN_REF = "DESIGN.md section 6, C19"
 RULE = (
-    "cases = all selection trees with <= N nodes over {leaf a, t{..}, ...{..}, ... on Query{..}, ...Frag} width<=2, "
+    "cases = all selection trees with <= N nodes over {leaf a, second spread of fragment 1 or 2, t{..}, ...{..}, ... on Query{..}, ...Frag{..}} width<=2 (acyclic), "
     "plus single deviations (directive variant / alias / duplicated spread) at every node, plus two-operation documents x operation_name; "
     "evaluation = one rule call (document, limit, variables); non-trivial = distinct (document, variables) whose reference depth >= 1 "
     "or that contains a fragment or directive"
@@ -37,8 +37,8 @@ ASSUMPTIONS = [
     "variables steering @skip/@include are always provided (Boolean!)",
 ]
 BOUNDS = {
-    "quick": {"nodes": 8, "deviation_nodes": 6, "multi_op_nodes": 3},
-    "thorough": {"nodes": 9, "deviation_nodes": 7, "multi_op_nodes": 4},
+    "quick": {"nodes": 7, "deviation_nodes": 5, "multi_op_nodes": 3},
+    "thorough": {"nodes": 8, "deviation_nodes": 6, "multi_op_nodes": 4},
 }
 TIME_CAP = {"quick": 120, "thorough": 1500}
 
@@ -48,10 +48,13 @@ SDL = "type Query { a: Int  t: Query }"
 # enumeration
 
 
+LEAVES = (("a",), ("r", 1), ("r", 2))
+
+
 @functools.lru_cache(maxsize=None)
 def _items(n):
     if n == 1:
-        return (("a",),)
+        return LEAVES
     out = []
     for kind in ("t", "i", "io", "s"):
         for ss in _sets(n - 1):
@@ -69,8 +72,31 @@ def _sets(n):
     return tuple(out)
 
 
-def _to_doc(sset):
-    """abstract tree -> (sels, frags) of mc.gen.docs; fragments named Frag1.. in DFS order."""
+def _nfr(x):
+    if x[0] in ("a", "r"):
+        return 0
+    return (1 if x[0] == "s" else 0) + sum(_nfr(c) for c in x[1])
+
+
+def _maxr(x):
+    if x[0] == "r":
+        return x[1]
+    if x[0] == "a":
+        return 0
+    return max(_maxr(c) for c in x[1])
+
+
+@functools.lru_cache(maxsize=None)
+def _wellformed_sets(n):
+    """sets of size n whose reuse leaves refer to fragments that exist (cycles are filtered later)."""
+    return tuple(
+        ss for ss in _sets(n) if max(_maxr(c) for c in ss) <= sum(_nfr(c) for c in ss)
+    )
+
+
+def _to_doc(sset, prefix="Frag"):
+    """abstract tree -> (sels, frags) of mc.gen.docs; fragments named Frag1.. in DFS order.
+    ("r", k) is a second spread of fragment k.  Returns None if the spreads form a cycle."""
     frags = []
 
     def conv_set(ss):
@@ -80,6 +106,8 @@ def _to_doc(sset):
         k = x[0]
         if k == "a":
             return ["f", "a", None, [], {}, None]
+        if k == "r":
+            return ["s", "%s%d" % (prefix, x[1]), []]
         if k == "t":
             return ["f", "t", None, [], {}, conv_set(x[1])]
         if k == "i":
@@ -87,7 +115,7 @@ def _to_doc(sset):
         if k == "io":
             return ["i", "Query", [], conv_set(x[1])]
         if k == "s":
-            name = "Frag%d" % (len(frags) + 1)
+            name = "%s%d" % (prefix, len(frags) + 1)
             slot = [name, "Query", [], None]
             frags.append(slot)
             slot[3] = conv_set(x[1])
@@ -95,6 +123,36 @@ def _to_doc(sset):
         raise ValueError(k)
 
     sels = conv_set(sset)
+    # cycle check
+    fm = {f[0]: f for f in frags}
+
+    def spreads(lst):
+        for s in lst:
+            if s[0] == "s":
+                yield s[1]
+            elif s[0] == "f" and s[5]:
+                for x in spreads(s[5]):
+                    yield x
+            elif s[0] == "i":
+                for x in spreads(s[3]):
+                    yield x
+
+    state = {}
+
+    def cyc(name):
+        if state.get(name) == 1:
+            return True
+        if state.get(name) == 2:
+            return False
+        state[name] = 1
+        for t in spreads(fm[name][3]):
+            if cyc(t):
+                return True
+        state[name] = 2
+        return False
+
+    if any(cyc(f[0]) for f in frags):
+        return None
     return sels, frags
 
 
@@ -110,8 +168,8 @@ DIR_VARIANTS = [
 ]
 
 
-def _all_nodes(sels, frags):
-    """every selection node of the operation and of all fragments, as (container list, index)."""
+def _all_nodes(ops_sels, frags):
+    """every selection node of the operations and of all fragments, as (container list, index)."""
     out = []
 
     def rec(lst):
@@ -122,7 +180,8 @@ def _all_nodes(sels, frags):
             elif s[0] == "i":
                 rec(s[3])
 
-    rec(sels)
+    for sels in ops_sels:
+        rec(sels)
     for fr in frags:
         rec(fr[3])
     return out
@@ -134,88 +193,118 @@ def _copy(x):
     return copy.deepcopy(x)
 
 
-def _mk_case(sels, frags, var=None, opname=None, ops=None, tag="base"):
-    if ops is None:
-        op = {"kind": "query", "name": None, "vars": [], "dirs": [], "sels": sels}
-        if var is not None:
+def _mk_case(ops, frags, var=None, opname=None, tag="base", xv=False):
+    ops = _copy(ops)
+    if var is not None:
+        for op in ops:
             op["vars"] = [["v", "Boolean!", None]]
-        ops = [op]
+            if op["name"] is None and len(ops) == 1:
+                pass
     return {
         "doc": {"ops": ops, "frags": frags},
         "variables": ({"v": var} if var is not None else {}),
         "operation_name": opname,
         "tag": tag,
+        "crosscheck_validity": xv,
     }
 
 
+def _op(name, sels):
+    return {"kind": "query", "name": name, "vars": [], "dirs": [], "sels": sels}
+
+
 def cases(tier):
+    """cheap descriptors; check_case materialises the documents."""
     b = BOUNDS[tier]
-    # 1. base documents
     for n in range(1, b["nodes"] + 1):
-        for ss in _sets(n):
-            sels, frags = _to_doc(ss)
-            c = _mk_case(sels, frags, tag="base/n=%d" % n)
-            c["crosscheck_validity"] = n <= 5
-            yield c
-    # 2. single deviations
+        for i in range(len(_wellformed_sets(n))):
+            yield ["base", n, i]
     for n in range(1, b["deviation_nodes"] + 1):
-        for ss in _sets(n):
-            sels0, frags0 = _to_doc(ss)
-            nn = len(_all_nodes(sels0, frags0))
-            for pos in range(nn):
-                for dname, dval, var in DIR_VARIANTS:
-                    sels, frags = _copy(sels0), _copy(frags0)
-                    lst, i = _all_nodes(sels, frags)[pos]
-                    node = lst[i]
-                    dirs = node[3] if node[0] == "f" else node[2]
-                    dirs.append([dname, {"if": dval}])
-                    c = _mk_case(sels, frags, var=var, tag="dir/n=%d" % n)
-                    c["crosscheck_validity"] = n <= 3
-                    yield c
-                sels, frags = _copy(sels0), _copy(frags0)
-                lst, i = _all_nodes(sels, frags)[pos]
-                node = lst[i]
-                if node[0] == "f" and node[5] is not None:
-                    node[2] = "x"
-                    yield _mk_case(sels, frags, tag="alias/n=%d" % n)
-                elif node[0] == "s":
-                    lst.insert(i + 1, _copy(node))
-                    yield _mk_case(sels, frags, tag="dupspread/n=%d" % n)
-    # 3. several operations x operation_name
-    m = b["multi_op_nodes"]
-    small = [ss for n in range(1, m + 1) for ss in _sets(n)]
-    for ia, sa in enumerate(small):
-        for sb in small:
-            selsa, fragsa = _to_doc(sa)
-            selsb, fragsb = _to_doc(sb)
-            # rename B's fragments to avoid clashes
-            ren = {}
-            for fr in fragsb:
-                ren[fr[0]] = "Other" + fr[0]
+        for i in range(len(_wellformed_sets(n))):
+            yield ["dev", n, i]
+    small = _small(b["multi_op_nodes"])
+    for ia in range(len(small)):
+        for ib in range(len(small)):
+            yield ["multi", b["multi_op_nodes"], ia, ib]
+    for ia in range(len(small)):
+        yield ["anon", b["multi_op_nodes"], ia]
 
-            def rn(lst):
-                for s in lst:
-                    if s[0] == "s":
-                        s[1] = ren[s[1]]
-                    elif s[0] == "f" and s[5]:
-                        rn(s[5])
-                    elif s[0] == "i":
-                        rn(s[3])
 
-            rn(selsb)
-            for fr in fragsb:
-                fr[0] = ren[fr[0]]
-                rn(fr[3])
-            ops = [
-                {"kind": "query", "name": "A", "vars": [], "dirs": [], "sels": selsa},
-                {"kind": "query", "name": "Bee", "vars": [], "dirs": [], "sels": selsb},
-            ]
-            for opname in (None, "A", "Bee", "Zed"):
-                yield _mk_case(None, fragsa + fragsb, ops=_copy(ops), opname=opname, tag="multi")
-    # anonymous operation with a name filter: nothing can be reported
-    for ss in small:
-        sels, frags = _to_doc(ss)
-        yield _mk_case(sels, frags, opname="A", tag="anon-filtered")
+@functools.lru_cache(maxsize=None)
+def _small(m):
+    return tuple(ss for n in range(1, m + 1) for ss in _wellformed_sets(n))
+
+
+def _deviations(ops_sels_of, frags0, ops0, tag, uses_var_everywhere):
+    """single departures at every node: directive variants, alias, duplicated spread."""
+    nn = len(_all_nodes([o["sels"] for o in ops0], frags0))
+    for pos in range(nn):
+        for dname, dval, var in DIR_VARIANTS:
+            ops, frags = _copy(ops0), _copy(frags0)
+            lst, i = _all_nodes([o["sels"] for o in ops], frags)[pos]
+            node = lst[i]
+            dirs = node[3] if node[0] == "f" else node[2]
+            dirs.append([dname, {"if": dval}])
+            if var is not None and len(ops) > 1:
+                # the variable must be declared (and used) by every operation that can reach it;
+                # keep multi-operation documents to literal conditions
+                continue
+            yield _mk_case(ops, frags, var=var, tag=tag + "/dir")
+        ops, frags = _copy(ops0), _copy(frags0)
+        lst, i = _all_nodes([o["sels"] for o in ops], frags)[pos]
+        node = lst[i]
+        if node[0] == "f" and node[5] is not None:
+            node[2] = "x"
+            yield _mk_case(ops, frags, tag=tag + "/alias")
+        elif node[0] == "s":
+            lst.insert(i + 1, _copy(node))
+            yield _mk_case(ops, frags, tag=tag + "/dupspread")
+
+
+def materialise(desc):
+    """descriptor -> list of concrete cases"""
+    kind = desc[0]
+    if kind == "base":
+        _, n, i = desc
+        d = _to_doc(_wellformed_sets(n)[i])
+        if d is None:
+            return []
+        sels, frags = d
+        return [_mk_case([_op(None, sels)], frags, tag="base/n=%d" % n, xv=(n <= 4))]
+    if kind == "dev":
+        _, n, i = desc
+        d = _to_doc(_wellformed_sets(n)[i])
+        if d is None:
+            return []
+        sels, frags = d
+        return list(_deviations(None, frags, [_op(None, sels)], "dev/n=%d" % n, True))
+    if kind == "multi":
+        _, m, ia, ib = desc
+        small = _small(m)
+        da, db = _to_doc(small[ia]), _to_doc(small[ib], prefix="Other")
+        if da is None or db is None:
+            return []
+        ops = [_op("A", da[0]), _op("Bee", db[0])]
+        frags = da[1] + db[1]
+        out = []
+        for opname in (None, "A", "Bee", "Zed"):
+            out.append(_mk_case(ops, _copy(frags), opname=opname, tag="multi"))
+        # single literal-directive deviations in two-operation documents (no filter / each filter)
+        if len(_all_nodes([o["sels"] for o in ops], frags)) <= 4:
+            for c in _deviations(None, frags, ops, "multi", False):
+                out.append(c)
+                for opname in ("A", "Bee"):
+                    c2 = _copy(c)
+                    c2["operation_name"] = opname
+                    out.append(c2)
+        return out
+    if kind == "anon":
+        _, m, ia = desc
+        d = _to_doc(_small(m)[ia])
+        if d is None:
+            return []
+        return [_mk_case([_op(None, d[0])], d[1], opname="A", tag="anon-filtered")]
+    raise ValueError(kind)
 
 
 # ------------------------------------------------------------------------------------------
@@ -423,11 +512,16 @@ def evaluate(case, st=None):
     return out
 
 
-def check_case(case, st):
-    if st.counters.get("cases", 0) % 997 == 1:
-        st.sample({"doc": D.render_doc(case["doc"]), "variables": case["variables"], "operation_name": case["operation_name"]})
-    st.n("tag:" + case["tag"].split("/")[0])
-    return [(cls, case, detail) for cls, detail in evaluate(case, st)]
+def check_case(desc, st):
+    out = []
+    for case in materialise(desc):
+        st.n("documents")
+        if st.counters.get("documents", 0) % 4999 == 1:
+            st.sample({"doc": D.render_doc(case["doc"]), "variables": case["variables"], "operation_name": case["operation_name"]})
+        st.n("tag:" + case["tag"].split("/")[0])
+        for cls, detail in evaluate(case, st):
+            out.append((cls, case, detail))
+    return out
 
 
 def replay(witness):
